@@ -53,8 +53,27 @@ class Divergence(Exception):
     """A replayed prefix did not match the execution: hard error."""
 
 
+def dependent(a, b) -> bool:
+    """Conservative dependence of two transition labels (kind, info). Independent pairs commute and do not disable each other:
+    queue operations on different queues, reads of a shared attribute, accesses to different shared attributes, purely local
+    steps (begin, exit, start, join are ordered by enabledness, not by dependence). Line-granularity points are dependent with everything."""
+    ka, ia = a
+    kb, ib = b
+    if ka == "line" or kb == "line":
+        return True
+    qops = ("put", "get", "get_nowait", "empty?")
+    if ka in qops and kb in qops:
+        return ia == ib and not (ka == "empty?" and kb == "empty?")
+    sa, sb = ka.split(":", 1), kb.split(":", 1)
+    if len(sa) == 2 and len(sb) == 2 and sa[0] in ("read", "write") and sb[0] in ("read", "write"):
+        return sa[1] == sb[1] and ("write" in (sa[0], sb[0]))
+    if ka.startswith(("event", "lock")) or kb.startswith(("event", "lock")):
+        return ka.split(".")[0] == kb.split(".")[0]
+    return False
+
+
 class _TState:
-    __slots__ = ("tid", "name", "sem", "finished", "wait", "wait_desc", "real", "exc", "started")
+    __slots__ = ("tid", "name", "sem", "finished", "wait", "wait_desc", "real", "exc", "started", "pending")
 
     def __init__(self, tid, name):
         self.tid, self.name = tid, name
@@ -65,6 +84,7 @@ class _TState:
         self.real = None
         self.exc = None
         self.started = False
+        self.pending = ("begin", None)   # label of the transition this thread performs when it is scheduled next
 
 
 class Controller:
@@ -72,7 +92,11 @@ class Controller:
 
     HANDOFF_TIMEOUT = 20.0
 
-    def __init__(self, prefix=(), horizon=4000, snapshot=None):
+    def __init__(self, prefix=(), horizon=4000, snapshot=None, sleep_at=None):
+        # sleep_at = (index of the branching choice point, set of thread ids put to sleep there): sleep-set partial-order reduction
+        self.sleep_at = sleep_at
+        self.sleep: set = set()
+        self.por = sleep_at is not None
         self.prefix = list(prefix)
         self.horizon = horizon
         self.threads: list[_TState] = []
@@ -120,6 +144,10 @@ class Controller:
         if self.n_points > self.horizon:
             self._abort("horizon")
             raise Abort("horizon")
+        if self.por and self.sleep:
+            done = me.pending
+            self.sleep = {t for t in self.sleep if not dependent(self.threads[t].pending, done)}
+        me.pending = (kind, info)
         me.wait, me.wait_desc = wait, wait_desc
         self._dispatch(me, kind, info)
         me.wait, me.wait_desc = None, None
@@ -138,19 +166,32 @@ class Controller:
         running_enabled = enabled[0] is me
         if len(enabled) > 1:
             idx = len(self.choices)
-            if idx < len(self.prefix):
+            replaying = idx < len(self.prefix)
+            if replaying:
                 c = self.prefix[idx]
                 if not (0 <= c < len(enabled)):
                     self._abort("stop")
                     raise Divergence(f"choice {c} out of range at point {idx} ({len(enabled)} enabled)")
             else:
                 c = 0
+                if self.por and self.sleep:
+                    awake = [i for i, t in enumerate(enabled) if t.tid not in self.sleep]
+                    if not awake:
+                        self._abort("sleep-blocked")   # every enabled thread is asleep: this execution is equivalent to one already explored
+                        return
+                    c = awake[0]
             self.choices.append(c)
             self.points.append({"n_enabled": len(enabled), "running_enabled": running_enabled, "kind": kind, "tid": me.tid,
-                                "info": info})
+                                "info": info, "enabled_tids": [t.tid for t in enabled], "sleep": sorted(self.sleep) if not replaying else None})
             nxt = enabled[c]
+            if self.por and self.sleep_at is not None and idx == self.sleep_at[0]:
+                # the branching point: siblings explored earlier (and the inherited sleep set) go to sleep unless dependent with the chosen transition
+                self.sleep = {t for t in self.sleep_at[1] if t != nxt.tid and not dependent(self.threads[t].pending, nxt.pending)}
         else:
             nxt = enabled[0]
+            if self.por and self.sleep and nxt.tid in self.sleep and len(self.choices) >= len(self.prefix):
+                self._abort("sleep-blocked")
+                return
         if self.snapshot is not None:
             try:
                 self.state_hashes.append(self.snapshot(self, kind, me.tid))
@@ -205,6 +246,10 @@ class Controller:
             if not self.aborted:
                 try:
                     self.n_points += 1
+                    if self.por and self.sleep:
+                        done = ts.pending   # the last transition of this thread wakes every sleeping thread that depends on it
+                        self.sleep = {t for t in self.sleep if not dependent(self.threads[t].pending, done)}
+                    ts.pending = ("exit", None)
                     self._dispatch(ts, "exit", None)
                 except (Abort, Divergence):
                     pass
